@@ -3,6 +3,7 @@ import ast as A
 import lib
 import gen_prog as GP
 import gen_coff as GC
+import gen_instr as G
 
 NEEDS_VO = ["Model/X86Enc.v", "Model/Asm.v", "Model/Coff.v", "Check/C08.v", "Check/Prog.v"]
 CH = "abcdefghijklmnopqrstuvwxyzABCDEFGHIJKLMNOPQRSTUVWXYZ0123456789_"
@@ -61,6 +62,18 @@ def run(v, tier, rng):
     for g in range(n):
         mode = rng.choice([16, 16, 32])
         prog, meta = GP.gen_program(rng, mode=mode, org=rng.choice([None, 0x7c00]), nstmts=rng.choice([6, 15, 30]), jumps=(mode == 16))
+        # further places where a label name travels as text: memory operands of LGDT / MOV / ALU / PUSH, label arithmetic
+        labs = meta["labels"]
+        if labs and rng.random() < 0.6:
+            acc, rg = ("AX", "CX") if mode == 16 else ("EAX", "ECX")
+            extra = [("mn", "LGDT", [A.mem("", A.ident(rng.choice(labs)))]), ("mn", "MOV", [G.reg(acc), A.mem("", A.ident(rng.choice(labs)))]),
+                     ("mn", "MOV", [A.mem("", A.ident(rng.choice(labs))), G.reg("AL")]), ("mn", "ADD", [G.reg(rg), A.mem("", A.sum_of([("+", ("id", rng.choice(labs))), ("+", ("num", 2))]))]),
+                     ("mn", "MOV", [G.reg(rg), A.sum_of([("+", ("id", rng.choice(labs))), ("+", ("num", 4))])]), ("mn", "PUSH", [A.ident(rng.choice(labs))])]
+            rng.shuffle(extra)
+            k = rng.randrange(len(prog) - 1) + 1 if len(prog) > 1 else 0
+            hd = 1 if prog and prog[0][0] == "config" else 0
+            k = max(k, hd + (1 if len(prog) > hd and prog[hd][0] == "mn" and prog[hd][1] == "ORG" else 0))
+            prog = prog[:k] + extra[: rng.randrange(1, 4)] + prog[k:]
         ns = names_of(prog)
         if rng.random() < 0.4 and len(ns) <= 4:
             fam = rng.choice(FAMILIES)
